@@ -5,6 +5,7 @@ Model: `Verif.Model.Ring` (the ring, cursor cells, cores; `derive` = `With`/`clo
 the code before the `fix:` commit).  Specification: one append-only log (`Spec`).
 -/
 import Verif.Lemmas.RingConc
+import Verif.Lemmas.RingHeap
 namespace Verif.Props.C20
 open Verif.Ring Verif.RingMutex
 
@@ -41,6 +42,44 @@ theorem C20_one_cursor_one_mutex (cap : Nat) (hc : 0 < cap) (h : List (Op ε)) :
     ∀ k ∈ (run (init cap : State ε) h).cores, k.cell = 0 ∧ k.mu = 0 := by
   have hi := inv_run cap hc h _ _ (inv_init (ε := ε) cap hc)
   exact fun k hk => ⟨hi.cell k hk, hi.mu k hk⟩
+
+/-! ### Entries as heap objects: what `GetLogs` handed out never changes afterwards
+
+`Verif.Model.RingHeap`: the ring stores *pointers* into a heap of `LoggedEntry` objects; `getLogsH` returns the
+pointers, `deref s refs` reads them in the heap of a (later) state `s`. -/
+
+/-- **Snapshot immutability.**  Take the pointers `GetLogs` returns after any history `h1`; after any further history
+`h2` of writes (through any loggers) and derivations they still read exactly the same entries — and those are the
+entries of the value-level model, i.e. (C20_seq) the `cap` newest ones at the time of the call.  So no retained entry
+is overwritten, neither in the buffer nor in the hands of a caller. -/
+theorem C20_snapshot_immutable (cap : Nat) (h1 h2 : List (Op ε)) :
+    deref (runH (runH (initH cap) h1) h2) (getLogsH (runH (initH cap) h1))
+      = deref (runH (initH cap) h1) (getLogsH (runH (initH cap) h1)) ∧
+    deref (runH (initH cap) h1) (getLogsH (runH (initH cap) h1)) = getLogs (run (init cap) h1) := by
+  have hv := validH_run h1 _ (validH_init (ε := ε) cap)
+  refine ⟨(deref_stable _ hv h2).1, ?_⟩
+  rw [← getLogs_absH, absH_run h1 _ (validH_init cap), absH_init]
+
+/-- The heap model is a refinement of the value model on every history: same `GetLogs` contents, every pointer valid. -/
+theorem C20_heap_refines (cap : Nat) (h : List (Op ε)) :
+    absH (runH (initH cap) h) = run (init cap) h ∧
+    (deref (runH (initH cap) h) (getLogsH (runH (initH cap) h))).length = (getLogsH (runH (initH cap) h)).length := by
+  refine ⟨by rw [absH_run h _ (validH_init cap), absH_init], ?_⟩
+  exact (deref_stable _ (validH_run h _ (validH_init (ε := ε) cap)) []).2
+
+example : let s1 := runH (initH 2) [.write 0 'a', .derive 0, .write 1 'b']
+    deref s1 (getLogsH s1) = ['b', 'a'] ∧ deref (runH s1 [.write 0 'c', .write 1 'd']) (getLogsH s1) = ['b', 'a'] := by
+  decide
+
+/-- **The code before the fix violates it** (`writeOldH`: `Write` reuses the `LoggedEntry` object of the slot it
+overwrites): with capacity 2, after `a, b` the snapshot reads `[b, a]`; one more write `c` through the same logger and
+the *same pointers* read `[b, c]`.  (On the implementation: `corpus/C20/fixed_snapshot_entry_reused.ops`, capacity
+1024.) -/
+theorem C20_snapshot_old_false :
+    let s1 := runOldH (initH 2) [.write 0 'a', .write 0 'b']
+    deref s1 (getLogsH s1) = ['b', 'a'] ∧
+    deref (runOldH s1 [.write 0 'c']) (getLogsH s1) = ['b', 'c'] := by
+  decide
 
 /-- the witness history: r1, With, d1, r2, d2 -/
 def witness : List (Op String) :=
